@@ -21,7 +21,8 @@ RULE = (
     "(tx2, n1, zen1 and both ISA databases) in ~/.osaca/data. Operations: run the CLI on a shipped kernel; look a "
     "model up twice in one process; delete the companion / home cache; move the companion pickle to the home cache; "
     "make the data directory read-only (chattr +i) so that the home cache is used; switch the model file between two "
-    "contents A/B (B differs in latencies); cut a cache file at an offset class {0 bytes, header only (1-16), "
+    "contents A/B (B differs in latencies), also while a process that already loaded it is alive (in-process lookup after "
+    "the edit); cut a cache file at an offset class {0 bytes, header only (1-16), "
     "mid-stream, last byte missing} or overwrite it with garbage; N in {2,4,8} processes cold-starting at once. "
     "Fault tier: every offset class x both cache locations x 3 models enumerated. Oracle: exit status 0, empty "
     "stderr, and the report (timestamp/file name removed) equals the report of a cold run on the same model content "
@@ -141,6 +142,24 @@ for i in range(2):
 """
 
 
+EDIT = r"""
+import sys, io, shutil
+import osaca.osaca as oo
+arch, path, newmodel, target = sys.argv[1], sys.argv[2], sys.argv[3], sys.argv[4]
+p = oo.create_parser()
+for i in range(2):
+    args = p.parse_args(["--arch", arch, path])
+    oo.check_arguments(args, p)
+    out = io.StringIO()
+    oo.run(args, output_file=out)
+    args.file.close()
+    sys.stdout.write("=====REPORT=====\n")
+    sys.stdout.write(out.getvalue())
+    if i == 0:
+        shutil.copyfile(newmodel, target)   # the model file changes while the process lives
+"""
+
+
 class Interp:
     """Executes history steps against a sandbox and checks every run."""
 
@@ -223,6 +242,35 @@ class Interp:
                 self.check_run(step, pr.returncode or 1, out, err or "two lookups failed")
             for i, part in enumerate(parts):
                 self.check_run(step, 0, part, err, tagx=":lookup%d" % (i + 1))
+            f["written"].add((arch, sb.current_hash(arch)))
+            f["checked"].append(len(self.history))
+        elif op == "edit_inproc":
+            # one process: analyse, the model file is replaced by the other variant, analyse again
+            arch = step["arch"]
+            if sb.readonly:
+                return
+            before = sb.variant[arch]
+            after = "B" if before == "A" else "A"
+            d = tempfile.mkdtemp(prefix="verif-c17e-")
+            p = os.path.join(d, "k.s")
+            with open(p, "w") as fh:
+                fh.write(kernel_code(step["kernel"]))
+            newmodel = os.path.join(d, "new.yml")
+            with open(newmodel, "w") as fh:
+                fh.write(variant_text(arch, after))
+            e = env.child_env()
+            e["HOME"] = sb.home
+            pr = subprocess.run([env.PY, "-c", EDIT, arch, p, newmodel, os.path.join(sb.data, arch + ".yml")], env=e,
+                                capture_output=True, timeout=600)
+            shutil.rmtree(d, ignore_errors=True)
+            out, err = pr.stdout.decode(errors="replace"), pr.stderr.decode(errors="replace")
+            parts = out.split("=====REPORT=====\n")[1:]
+            if pr.returncode != 0 or len(parts) != 2:
+                self.check_run(step, pr.returncode or 1, out, err or "edit-in-process run failed")
+            self.check_run(step, 0, parts[0], err, tagx=":before-edit")
+            sb.variant[arch] = after
+            self.check_run(step, 0, parts[1], err, tagx=":after-edit-same-process")
+            f["edit_after_cache"] = True
             f["written"].add((arch, sb.current_hash(arch)))
             f["checked"].append(len(self.history))
         elif op == "rm_companion":
@@ -327,6 +375,10 @@ def make_machine(stats, failures_out):
         def twice(self, arch, k):
             self.step({"op": "twice", "arch": arch, "kernel": kernels_for(arch)[k]})
 
+        @rule(arch=st.sampled_from(ARCHS), k=st.integers(0, 2))
+        def edit_inproc(self, arch, k):
+            self.step({"op": "edit_inproc", "arch": arch, "kernel": kernels_for(arch)[k]})
+
         @rule(arch=st.sampled_from(ARCHS))
         def rm_companion(self, arch):
             self.step({"op": "rm_companion", "arch": arch})
@@ -378,7 +430,26 @@ def make_machine(stats, failures_out):
 
 
 def fault_enumeration(archs, stats, failures):
-    """every offset class x both cache locations x 3 models: write cache, damage it, run twice"""
+    """every offset class x both cache locations x 3 models: write cache, damage it, run twice;
+    plus one model edit inside a living process per model"""
+    for arch in archs:
+        it = Interp()
+        hist = [{"op": "run", "arch": arch, "kernel": kernels_for(arch)[0], "fixed": False},
+                {"op": "edit_inproc", "arch": arch, "kernel": kernels_for(arch)[0]},
+                {"op": "run", "arch": arch, "kernel": kernels_for(arch)[0], "fixed": False}]
+        try:
+            for s_ in hist:
+                it.do(s_)
+            for upto in it.facts["checked"]:
+                stats.evaluations += 1
+                stats.nontrivial.add(core.case_hash(it.history[:upto]))
+            stats.classes["fault:edit-in-living-process"] += 1
+        except Violation as v:
+            stats.evaluations += 1
+            if v.bucket not in failures:
+                failures[v.bucket] = failure_record(ID, {"history": list(it.history)}, v)
+        finally:
+            it.close()
     for arch in archs:
         for where in ("companion", "home"):
             for cls in ("zero", "header", "mid", "last", "garbage"):
